@@ -129,6 +129,9 @@ def _run_job(args):
         from . import sym as _sym
 
         _sym.INPLACE_PROMOTIONS[0] = 0
+        from . import linsolve as _ls
+
+        _ls.CRAMER_FORM[0] = False
     except Exception:
         pass
     try:
